@@ -11,12 +11,53 @@ use crate::real::*;
 
 pub struct C06;
 
+/// `changed` in X / C expansions (a fixed program): an input that is not flagged as changed
+/// carries the value it had in the previous vector handed to the driver.
+fn changed_in_expansions(out: &mut CaseOut) {
+    out.class("changed-flags-in-expansions");
+    let sigs = vec![
+        Sig { name: "A".into(), bits: 1, kind: Kind::In(InVal::Val(0)) },
+        Sig { name: "B".into(), bits: 4, kind: Kind::In(InVal::Val(0)) },
+        Sig { name: "CLK".into(), bits: 1, kind: Kind::In(InVal::Val(0)) },
+        Sig { name: "Q".into(), bits: 1, kind: Kind::Out },
+    ];
+    let header: Vec<String> = ["A", "B", "CLK", "Q"].iter().map(|s| s.to_string()).collect();
+    let n = |v: u64| Entry::Num(v, Radix::Dec);
+    let stmts = vec![
+        Stmt::Row(0, vec![Entry::X(true), n(3), Entry::C(true), n(0)]),
+        Stmt::Row(1, vec![n(1), Entry::X(true), Entry::C(true), n(1)]),
+        Stmt::Row(2, vec![Entry::X(true), Entry::X(true), n(1), Entry::X(true)]),
+        Stmt::Row(3, vec![Entry::C(true), n(3), Entry::X(true), n(0)]),
+    ];
+    let text = canonical(&Program { header, stmts }).text;
+    let spec = DriverSpec::honest(&sigs, 5, Palette::Small);
+    let Ok(tc) = load(&text, &sigs) else { return };
+    let real = run_real(&tc, &sigs, &spec, &RunOpts { max_next: 60, ..Default::default() });
+    for (k, item) in real.items.iter().enumerate() {
+        let RealItem::Row(row) = item else { return };
+        if real.log.len() <= k + 1 {
+            return;
+        }
+        let prev = &real.log[k].inputs;
+        for (name, v, changed) in &row.inputs {
+            let pv = prev.iter().find(|p| p.0 == *name).map(|p| p.1);
+            if !*changed && pv != Some(*v) {
+                out.fail(
+                    "c06:changed-false-but-differs",
+                    format!("item {k} of `X 3 C 0` / `1 X C 1` / `X X 1 X` / `C 3 X 0` (inputs A B CLK): {name}={v} is flagged unchanged but the previous vector handed to the driver had {pv:?}"),
+                );
+                return;
+            }
+        }
+    }
+}
+
 impl Property for C06 {
     fn id(&self) -> &'static str {
         "C06"
     }
     fn rule(&self) -> &'static str {
-        "profile `binding`: signal lists of 1-10 signals (possibly without any input) in any interleaving of kinds, widths and defaults (numbers incl. 64-bit, Z); header = random subset and permutation of the legal column names (name for inputs/outputs/virtuals, name and/or name_out for bidirectionals, pairs split or partial); loop-free programs of 2-7 rows whose literal in column j of row r is a tag distinct from its neighbours' and fitting the width; Z and `(~0)` (all ones at the signal's width) in input columns, Z/X in expected columns; now and then a virtual signal called like the `_out` column of a bidirectional signal; consecutive rows repeat or change single columns or return to the value before (v, w, v); in a third of the cases the driver fails on one row's call, in some cases with virtual signals the device answers Z/X so that a row becomes an error item after its vector was handed over - the caller goes on. Oracle: closed formulas - inputs = input-capable signals in list order, each from its column or its default; outputs = output-capable signals in list order then virtual signals, each expected value from name / name_out or X; changed==false => value equals the previous vector handed to the driver (from the log); header-omitted inputs never flagged changed. Non-trivial: header order != list order, or an omitted signal, or a split bidirectional pair, with >= 2 rows; distinct by signal list + header + rows."
+        "profile `binding`: signal lists of 1-10 signals (possibly without any input) in any interleaving of kinds, widths and defaults (numbers incl. 64-bit, Z); header = random subset and permutation of the legal column names (name for inputs/outputs/virtuals, name and/or name_out for bidirectionals, pairs split or partial); loop-free programs of 2-7 rows whose literal in column j of row r is a tag distinct from its neighbours' and fitting the width; Z and `(~0)` (all ones at the signal's width) in input columns, Z/X in expected columns; now and then a virtual signal called like the `_out` column of a bidirectional signal; consecutive rows repeat or change single columns or return to the value before (v, w, v); in a third of the cases the driver fails on one row's call, in some cases with virtual signals the device answers Z/X so that a row becomes an error item after its vector was handed over - the caller goes on. One case in sixteen also runs a fixed program of X and C rows (`X 3 C 0`, `1 X C 1`, `X X 1 X`, `C 3 X 0`) and applies the `changed` rule to every expanded item. Oracle: closed formulas - inputs = input-capable signals in list order, each from its column or its default; outputs = output-capable signals in list order then virtual signals, each expected value from name / name_out or X; changed==false => value equals the previous vector handed to the driver (from the log); header-omitted inputs never flagged changed. Non-trivial: header order != list order, or an omitted signal, or a split bidirectional pair, with >= 2 rows; distinct by signal list + header + rows."
     }
     fn cases(&self, tier: Tier) -> u64 {
         match tier {
@@ -28,7 +69,7 @@ impl Property for C06 {
         [300, 8, 12]
     }
     fn required_classes(&self) -> Vec<&'static str> {
-        vec!["header-permuted", "input-omitted", "output-omitted", "bidir-split", "bidir-out-only", "virtual-column", "changed=false", "changed=true", "Z-default", "Z-input-entry", "row-after-error-item", "test-without-inputs", "virtual-named-like-a-bidirectional-out-column", "Z-next-to-all-ones", "column-shared-by-an-input-and-a-bidirectional"]
+        vec!["header-permuted", "input-omitted", "output-omitted", "bidir-split", "bidir-out-only", "virtual-column", "changed=false", "changed=true", "Z-default", "Z-input-entry", "row-after-error-item", "test-without-inputs", "virtual-named-like-a-bidirectional-out-column", "Z-next-to-all-ones", "column-shared-by-an-input-and-a-bidirectional", "changed-flags-in-expansions"]
     }
     fn run(&self, s: &Streams) -> CaseOut {
         let mut out = CaseOut::new();
@@ -174,6 +215,14 @@ impl Property for C06 {
         let Some(tc) = load_wellformed(&mut out, "c06", &text, &sigs) else {
             return out;
         };
+        // (one case in sixteen also runs a fixed program with X and C rows and looks at the
+        // `changed` flags of every expanded item)
+        if dch.chance(1, 16) {
+            changed_in_expansions(&mut out);
+            if out.is_fail() {
+                return out;
+            }
+        }
         let real = run_real(&tc, &sigs, &spec, &RunOpts { max_next: nrows + 1, continue_after_error: true, continue_after_driver_error: true, ..Default::default() });
         if let Some(c) = &real.ctor {
             match c {
